@@ -189,8 +189,10 @@ def post(t, op, st, want):
                 fexp = fl0 + sum(a[2] for a in adj if a[3] and _path_name(t, a[1]) == n)
                 if not ref.near(fl1, fexp, scale):
                     out.append({"rule": "trade_counted_as_flow", "expected": {"node": n, "flows_row": fexp}, "observed": fl1})
-        # a pure security trade moves nobody's flow accumulator
-        if op[0] in ("transact", "sectransact") or (op[0] in ("alloc", "reb", "close") and _is_security_child(s1, t, op)):
+        # a pure security trade moves nobody's flow accumulator (unless it ruins the root: the liquidation that
+        # follows takes the sub-strategies' capital back, which is a flow of theirs - C16)
+        went_bankrupt = bool(s1[root].get("bankrupt")) and not bool(s0[root].get("bankrupt"))
+        if not went_bankrupt and (op[0] in ("transact", "sectransact") or (op[0] in ("alloc", "reb", "close") and _is_security_child(s1, t, op))):
             for n in strat_names(s1):
                 fl0 = r0[n]["flows"] if n in r0 else 0.0
                 if not ref.near(r1[n]["flows"], fl0, scale):
